@@ -36,6 +36,11 @@ UNICODE_POOL = [
     "\U0001F9EC", "\U0001F600", "\U00010348", "\U0002070E", "Ā", "߿", "ࠀ", "￿", "\x7f", "\x80", "\xff",
     "\x04", "\x1f", " ", "\t", "\n", ">", "@",
 ]
+# non-ASCII characters whose code point has a nucleotide letter as its low byte / low bits: a binding
+# that narrows code points (or masks bytes) instead of walking the UTF-8 bytes would accept them
+CONFUSABLE = [chr(0x100 * hi + ord(c)) for hi in (1, 2, 0x1F3, 0x4E) for c in "ACGTUacgtu"] + \
+             [chr(0x10000 + 0x100 * hi + ord(c)) for hi in (0xF3, 0x02) for c in "ACGTacgt"]
+UNICODE_POOL = UNICODE_POOL + CONFUSABLE
 
 
 def gen_string(rng, max_len=200):
@@ -297,6 +302,10 @@ def child_cgr(pk, rng, n, R, ktmon, work):
         S = rng.choice([1, 2, 3, 7, 16, 1000, 1 << 20, rng.randint(1, 1 << 20)])
         if i % 3 == 0:
             cls, s = gen_string(rng, 80)
+        elif i % 7 == 1:
+            base = gen_nuc(rng, 40) or "ACGT"
+            p = rng.randrange(len(base) + 1)
+            cls, s = "confusable", base[:p] + rng.choice(CONFUSABLE) + base[p:]
         else:
             cls, s = "nuc", gen_nuc(rng)
         cases.append({"op": "cgr", "seq": s, "S": S, "_cls": cls})
@@ -348,7 +357,7 @@ def child_cgr(pk, rng, n, R, ktmon, work):
 def child_batch(pk, rng, n, R, ktmon, work):
     threads = os.environ.get("RAYON_NUM_THREADS", "default")
     R.extra["rayon_num_threads"] = threads
-    for size in [0, 1, 2, 7, 1000, 5000][: (6 if n >= 6 else 4)]:
+    for size in ([0, 1, 2, 7, 1000, 5000] if n >= 6 else [0, 1, 2, 7, 1000]):
         k = rng.randint(1, 5)
         norm = rng.random() < 0.5
         seqs = [gen_string(rng, 60)[1] for _ in range(size)]
@@ -515,13 +524,13 @@ CHILDREN = {"py.kmers": child_kmers, "py.min": child_min, "py.oligo": child_olig
 
 # (groups, cases per group) per tier
 SIZES = {
-    "py.kmers": {"quick": (3, 700), "thorough": (16, 6000)},
-    "py.min": {"quick": (3, 600), "thorough": (16, 5000)},
-    "py.oligo": {"quick": (3, 500), "thorough": (16, 4000)},
+    "py.kmers": {"quick": (4, 2500), "thorough": (16, 8000)},
+    "py.min": {"quick": (4, 2000), "thorough": (16, 6000)},
+    "py.oligo": {"quick": (4, 1500), "thorough": (16, 5000)},
     "py.header": {"quick": (1, 8), "thorough": (1, 8)},
-    "py.cgr": {"quick": (3, 600), "thorough": (16, 5000)},
-    "py.batch": {"quick": (3, 4), "thorough": (9, 6)},
-    "py.lifetime": {"quick": (2, 150), "thorough": (8, 1200)},
+    "py.cgr": {"quick": (4, 2000), "thorough": (16, 6000)},
+    "py.batch": {"quick": (4, 5), "thorough": (9, 6)},
+    "py.lifetime": {"quick": (4, 200), "thorough": (8, 1200)},
     "py.acgt": {"quick": (1, 400), "thorough": (2, 5000)},
     "py.models": {"quick": (2, 600), "thorough": (8, 4000)},
 }
